@@ -166,7 +166,7 @@ def canon_tree(t, code):
 
 
 def rule_line(r, null_empty=False):
-    an = "-" if r["an"] == 0 else "a%d" % r["an"]
+    an = "-" if r["an"] == 0 else '""' if r["an"] == 77 else "a%d" % r["an"]      # 77: the EMPTY abstract node name
     tr = ["N" if e == 0 else str(e - 1) for e in r["t"]]
     if null_empty and not tr:
         # an empty translation handed over as a NULL pointer instead of an empty array (the harness passes NULL for a count of -1)
